@@ -192,3 +192,51 @@ DOC_SNIPPETS = {
     "rest": ("def d{n}(a: int, b='x', *args, **kwargs):\n    \"\"\"Summary.\n\n    Extended.\n\n    :param a: The a.\n    :type a: int\n    :param str b: The b.\n    :param args: More.\n    :param missing: Not a parameter.\n    :raises ValueError: Sometimes.\n    :returns: One.\n    :rtype: int\n    \"\"\"\n    return 1\n\n\nclass DC{n}:\n    \"\"\"Class.\n\n    :param x: The x.\n    :type x: float\n    :param y: The y.\n    :type y: list[int] or None\n    :var z: The z.\n    :vartype z: int\n    \"\"\"\n\n    z: int = 0\n\n    def __init__(self, x, y=None):\n        self.x = x\n"),
     "plaintext": ("def d{n}(a: int, b='x'):\n    \"\"\"Just text.\n\n        Indented weirdly.\n    And: colons, {braces}, `ticks`, <tags> & more.\n    \"\"\"\n    return 1\n\n\nclass DC{n}:\n    '''Single quoted docstring.'''\n\n    def __init__(self, x):\n        \"init doc\"\n        self.x = x\n"),
 }
+
+
+# ------------------------------------------------------------------------------------------------------------------
+# Type expressions as people write them in docstrings: names, literals of every kind, '|' / 'or' / ',' chains of two to four
+# members with literals in any place, brackets, prose forms and text that is no expression at all.
+DOC_TYPE_ATOMS = [
+    "int", "str", "None", "0", "1.5", "True", "'a'", '"fast mode"', "...", "list[int]", "dict[str, int]", "Foo", "a.b.C", "-1", "()", "[]",
+    "{}", "{'a', 'b'}", "lambda: 0", "*", "int, optional", "bool", "float", "tuple[int, ...]", "set[str]", "Callable[[int], str]",
+    "typing.Optional[int]", "x[", "int if x else str", "not int", "f'{x}'", "1 + 2", "int = 3", "list of int", "array-like of shape (n,)",
+    "{0, 1}", "{True, False, None}", "type[int]", "Literal['a']", "Literal[1, 2]", "None | None", "int | 0", "object", "Any", "bytes",
+]
+
+
+def doc_type(rng) -> str:
+    k = rng.choice([1, 2, 2, 3, 3, 4])
+    t = rng.choice([" | ", " | ", " or ", ", "]).join(rng.choice(DOC_TYPE_ATOMS) for _ in range(k))
+    r = rng.random()
+    if r < 0.1:
+        t = f"list[{t}]"
+    elif r < 0.2:
+        t = f"Optional[{t}]"
+    elif r < 0.25:
+        t = f"({t})"
+    elif r < 0.3:
+        t = f"tuple[{t}, {rng.choice(DOC_TYPE_ATOMS)}]"
+    elif r < 0.35:
+        t = f"list of {t}"
+    elif r < 0.4:
+        t = f"dict[str, {t}]"
+    return t
+
+
+def doc_type_function(style: str, name: str, types: list[str]) -> str:
+    """A function (and a class with an attribute) whose docstring gives ``types`` to its parameters, its result and the attribute."""
+    ps = [f"p{i}" for i in range(len(types))]
+    if style == "numpydoc":
+        doc = "Summary.\n\n    Parameters\n    ----------\n" + "".join(f"    {p} : {t}\n        Text.\n" for p, t in zip(ps, types)) + f"\n    Returns\n    -------\n    r : {types[0]}\n        Text.\n"
+        cdoc = f"Summary.\n\n    Attributes\n    ----------\n    at : {types[-1]}\n        Text.\n"
+    elif style == "google":
+        doc = "Summary.\n\n    Args:\n" + "".join(f"        {p} ({t}): Text.\n" for p, t in zip(ps, types)) + f"\n    Returns:\n        {types[0]}: Text.\n"
+        cdoc = f"Summary.\n\n    Attributes:\n        at ({types[-1]}): Text.\n"
+    elif style == "rest":
+        doc = "Summary.\n\n" + "".join(f"    :param {p}: Text.\n    :type {p}: {t}\n" for p, t in zip(ps, types)) + f"    :returns: Text.\n    :rtype: {types[0]}\n"
+        cdoc = f"Summary.\n\n    :var at: Text.\n    :vartype at: {types[-1]}\n"
+    else:
+        doc = "Summary " + "; ".join(types) + "\n"
+        cdoc = "Summary.\n"
+    return f"def {name}({', '.join(ps)}):\n    r\"\"\"{doc}    \"\"\"\n    return 1\n\n\nclass K{name}:\n    r\"\"\"{cdoc}    \"\"\"\n\n    at = None\n\n\n"
